@@ -244,7 +244,7 @@ func genHostile(r *vkit.Run, salt uint16) (ins []*input) {
 	}
 
 	// 1. Random bytes.
-	nRandom := r.N(150, 1500)
+	nRandom := r.N(150, 6000)
 	for j := 0; j < nRandom; j++ {
 		rng := r.Rand("hostile-random", j)
 		var n int
@@ -273,7 +273,7 @@ func genHostile(r *vkit.Run, salt uint16) (ins []*input) {
 	}
 
 	// 2. Truncations of valid messages at every offset.
-	nBases := r.N(3, 12)
+	nBases := r.N(3, 40)
 	for v := 0; v < nBases; v++ {
 		rng := r.Rand("hostile-truncation", v)
 		base, desc := hostileBase(rng, v, 0)
@@ -323,6 +323,7 @@ func genHostile(r *vkit.Run, salt uint16) (ins []*input) {
 		qr             bool
 		opcode         int
 		qd, an, ns, ar int
+		variant        int
 	}
 	var cons []consistent
 	for _, qr := range []bool{false, true} {
@@ -349,8 +350,16 @@ func genHostile(r *vkit.Run, salt uint16) (ins []*input) {
 			back = append(back, c)
 		}
 	}
+	// In the thorough tier the corner is repeated with other question names.
+	for v := 1; v < r.N(1, 6); v++ {
+		for _, c := range front[:54] {
+			c.variant = v
+			front = append(front, c)
+		}
+	}
+	nFront := len(front)
 	cons = append(front, back...)
-	for _, c := range cons[:min(len(cons), r.N(54+110, len(cons)))] {
+	for _, c := range cons[:min(len(cons), r.N(nFront+110, len(cons)))] {
 		bits := tbench.FlagRD
 		if c.qr {
 			bits |= tbench.FlagQR
@@ -358,7 +367,7 @@ func genHostile(r *vkit.Run, salt uint16) (ins []*input) {
 
 		spec := &tbench.QuerySpec{
 			Flags:      tbench.FlagsWord(c.opcode, bits, 0),
-			Name:       tbench.WireName([]byte("Cons"), []byte("test")),
+			Name:       tbench.WireName([]byte("Cons"), token("v", c.variant), []byte("test")),
 			QType:      dns.TypeA,
 			QClass:     dns.ClassINET,
 			NoQuestion: c.qd == 0,
@@ -376,7 +385,7 @@ func genHostile(r *vkit.Run, salt uint16) (ins []*input) {
 			spec.OPT = &tbench.OPTSpec{UDPSize: 1232}
 		}
 
-		add("header-consistent", fmt.Sprintf("qr=%t opcode=%d qd=%d an=%d ns=%d ar=%d", c.qr, c.opcode, c.qd, c.an, c.ns, c.ar),
+		add("header-consistent", fmt.Sprintf("qr=%t opcode=%d qd=%d an=%d ns=%d ar=%d variant=%d", c.qr, c.opcode, c.qd, c.an, c.ns, c.ar, c.variant),
 			spec.Wire(), nil)
 	}
 
